@@ -1352,12 +1352,26 @@ theorem slicesLoop_ok {u : UEnv} (a : Nat) (bounds : List (Nat × Nat)) : ∀ {o
         · subst e; exact p2.fmt_lt (hres r' rfl)
         · exact hres2 rs rfl r' m
 
-theorem slices_ok {u : UEnv} {o h} (g : Good u o h) {a : Nat} (ha : a < h.fmts.length) (bounds : List (Nat × Nat)) :
-    Ok u (slices a bounds) o h (Std u o h LiveEL) := by
+theorem slices_ok {u : UEnv} {o h} (g : Good u o h) {a : Nat} (ha : a < h.fmts.length)
+    (bounds : Except PyErr (List (Nat × Nat))) : Ok u (slices a bounds) o h (Std u o h LiveEL) := by
   unfold slices
   refine Std.bind (obsS_ok g ha) ?_
   intro t o1 h1 g1 p1 _ _
-  exact slicesLoop_ok a bounds g1 (p1.fmt_lt ha)
+  split
+  · exact Std.pure g1 (fun r e => by cases e)
+  · exact slicesLoop_ok a _ g1 (p1.fmt_lt ha)
+
+theorem eqOp_ok {u : UEnv} {o h} (g : Good u o h) {a : Nat} (ha : a < h.fmts.length) {other : Arg} (hb : argLive h other) :
+    Ok u (eqOp a other) o h (Std u o h fun _ _ _ => True) := by
+  unfold eqOp
+  refine Std.bind (obsStr_ok g ha) ?_
+  intro x o1 h1 g1 p1 _ _
+  refine Std.bind (R1 := fun _ _ _ => True) ?_ ?_
+  · cases other with
+    | ref r => exact Std.mono (obsStr_ok g1 (p1.fmt_lt hb)) (fun _ _ _ _ _ _ => trivial)
+    | str t => exact Std.pure g1 trivial
+  · intro y o2 h2 g2 p2 _ _
+    exact Std.pure g2 trivial
 
 
 theorem addEither_ok {u : UEnv} {o h} (g : Good u o h) {a b : Nat} (ha : a < h.fmts.length) (hb : b < h.fmts.length)
@@ -1594,10 +1608,13 @@ theorem opCmd_ok {u : UEnv} {o h} (g : Good u o h) (op : Op) (hl : opLive h op) 
     | str t => trivial
   | getitem a idx => exact oneE (getitem_ok g (hl a (by simp [opRefs])) idx)
   | splice a new start end_ =>
-    refine one (splice_ok g (hl a (by simp [opRefs])) ?_ start end_)
-    cases new with
-    | ref r => exact hl r (by simp [opRefs, Arg.refs])
-    | str t => trivial
+    simp only [opCmd]
+    split
+    · exact Std.pure g trivial
+    · refine one (splice_ok g (hl a (by simp [opRefs])) ?_ start end_)
+      cases new with
+      | ref r => exact hl r (by simp [opRefs, Arg.refs])
+      | str t => trivial
   | append a new =>
     refine one (append_ok g (hl a (by simp [opRefs])) ?_)
     cases new with
@@ -1632,10 +1649,319 @@ theorem opCmd_ok {u : UEnv} {o h} (g : Good u o h) (op : Op) (hl : opLive h op) 
     refine Std.bind (obsColor_ok g (hl a (by simp [opRefs])) k) ?_
     intro v o1 h1 g1 _ _ _
     cases v <;> exact Std.pure g1 trivial
+  | eq a other =>
+    refine Std.bind (eqOp_ok g (hl a (by simp [opRefs])) ?_) ?_
+    · cases other with
+      | ref r => exact hl r (by simp [opRefs, Arg.refs])
+      | str t => trivial
+    · intro v o1 h1 g1 _ _ _
+      exact Std.pure g1 trivial
+  | hash a =>
+    refine Std.bind (obsStr_ok g (hl a (by simp [opRefs]))) ?_
+    intro v o1 h1 g1 _ _ _
+    exact Std.pure g1 trivial
   | setitem a => exact Std.pure g trivial
   | attsMutate a k name after =>
     simp only [notInit] at hn
     simp only [opCmd, if_neg hn]
     exact Std.pure g trivial
 
+/-! ### refinement: the heap operations compute the values of the value-level models
+
+  `getitemParts` / `spliceParts` / `wasParts` are `getitemLoop` / `spliceLoop` / `wasChunkLoop`
+  (Model/FmtStr.lean, Model/Width.lean: the models C06, C09, C10 are proved about) with the bookkeeping of
+  which run objects are reused; erasing that bookkeeping gives the value-level function back. -/
+
+theorem getitemParts_val (start stop : Nat) (vs : List (Nat × Chunk)) : ∀ counter,
+    (getitemParts start stop counter vs).map Part.val = getitemLoop start stop counter (vs.map Prod.snd) := by
+  induction vs with
+  | nil => intro counter; rfl
+  | cons p vs ih =>
+    intro counter
+    obtain ⟨id, c⟩ := p
+    simp only [getitemParts, getitemLoop, List.map_cons]
+    split <;> split <;> (try split) <;> simp [ih, Part.val]
+
+theorem spliceParts_val (new : List Part) (start end_ : Nat) (vs : List (Nat × Chunk)) : ∀ bfsStart inserted,
+    ((spliceParts new start end_ bfsStart inserted vs).1.map Part.val, (spliceParts new start end_ bfsStart inserted vs).2)
+      = spliceLoop (new.map Part.val) start end_ bfsStart inserted (vs.map Prod.snd) := by
+  induction vs with
+  | nil => intro b i; rfl
+  | cons p vs ih =>
+    intro b i
+    obtain ⟨id, c⟩ := p
+    simp only [spliceParts, spliceLoop, List.map_cons]
+    split
+    · have := ih (b + c.s.length) true
+      simp only [Prod.ext_iff] at this ⊢
+      simp [this.1, this.2, Part.val]
+    · split
+      · have := ih (b + c.s.length) true
+        simp only [Prod.ext_iff] at this ⊢
+        split <;> simp [this.1, this.2, Part.val]
+      · split
+        · have := ih (b + c.s.length) i
+          simp only [Prod.ext_iff] at this ⊢
+          simp [this.1, this.2, Part.val]
+        · split
+          · have := ih (b + c.s.length) i
+            simp only [Prod.ext_iff] at this ⊢
+            simp [this.1, this.2, Part.val]
+          · exact ih _ _
+
+
+theorem wasPart_val (u : UEnv) (start stop counter : Int) (id : Nat) (c : Chunk) (cw : Int) :
+    (wasPart u start stop counter id c cw).map (List.map Part.val) = wasChunkPart u start stop counter c cw := by
+  simp only [wasPart, wasChunkPart]
+  split
+  · split
+    · rfl
+    · cases widthAwareSliceStr u c.s (max 0 (start - counter)) (stop - counter) <;> rfl
+  · rfl
+
+theorem wasParts_val (u : UEnv) (start stop : Int) (vs : List (Nat × Chunk)) : ∀ counter,
+    (wasParts u start stop counter vs).map (List.map Part.val) = wasChunkLoop u start stop counter (vs.map Prod.snd) := by
+  induction vs with
+  | nil => intro counter; rfl
+  | cons p vs ih =>
+    intro counter
+    obtain ⟨id, c⟩ := p
+    simp only [wasParts, wasChunkLoop, List.map_cons, bind, Except.bind]
+    cases hw : chunkWidth u c with
+    | error e => rfl
+    | ok cw =>
+      simp only []
+      have hp := wasPart_val u start stop counter id c cw
+      cases hpart : wasPart u start stop counter id c cw with
+      | error e => rw [hpart] at hp; simp only [Except.map] at hp; rw [← hp]; rfl
+      | ok part =>
+        rw [hpart] at hp; simp only [Except.map] at hp; rw [← hp]
+        simp only []
+        split
+        · rfl
+        · have := ih (counter + cw)
+          cases hr : wasParts u start stop (counter + cw) vs with
+          | error e => rw [hr] at this; simp only [Except.map] at this; rw [← this]; rfl
+          | ok r => rw [hr] at this; simp only [Except.map] at this; rw [← this]; simp [Except.map, pure, Except.pure]
+
+
+/-! ### values of results (refinement of the value-level models) -/
+
+/-- the recorded value of every reused run is the run's value in `h` -/
+def partsTrue (h : Heap) (ps : List Part) : Prop := ∀ c v, Part.shared c v ∈ ps → h.chunkVal c = some v
+
+theorem partsTrue_live {h : Heap} {ps : List Part} (hp : partsTrue h ps) : partsLive h ps := by
+  intro c v hm
+  have := hp c v hm
+  simp only [Heap.chunkVal] at this
+  cases hx : h.chunks[c]? with
+  | none => simp [hx] at this
+  | some x => exact (List.getElem?_eq_some_iff.mp hx).1
+
+theorem valsOf_congr {h h' : Heap} (e : h'.chunks = h.chunks) (cs : List Nat) : h'.valsOf cs = h.valsOf cs := by
+  induction cs with
+  | nil => rfl
+  | cons c cs ih => simp only [Heap.valsOf, Heap.chunkVal, e, ih]
+
+theorem allocParts_val {u : UEnv} {o h} (g : Good u o h) {ps : List Part} (hp : partsTrue h ps) :
+    Ok u (allocParts ps) o h (Std u o h fun cs _ h' => h'.chunkIds cs ∧ h'.valsOf cs = some (ps.map Part.val)) := by
+  induction ps generalizing o h with
+  | nil => exact Std.pure g ⟨(fun c hm => by cases hm), rfl⟩
+  | cons p ps ih =>
+    have hps : partsTrue h ps := fun c v hm => hp c v (List.mem_cons_of_mem _ hm)
+    cases p with
+    | shared c v =>
+      have hcv := hp c v List.mem_cons_self
+      have hc : c < h.chunks.length := partsTrue_live hp c v List.mem_cons_self
+      show Ok u (allocParts ps >>= fun r => Pure.pure (c :: r)) o h _
+      refine Std.bind (ih g hps) ?_
+      intro cs o' h' g' p' _ hcs
+      refine Std.pure g' ⟨?_, ?_⟩
+      · intro x hm
+        rcases List.mem_cons.mp hm with e | m
+        · subst e; exact p'.chunk_lt hc
+        · exact hcs.1 x m
+      · simp [Heap.valsOf, p'.chunkVal hc, hcv, hcs.2, Part.val]
+    | fresh v =>
+      show Ok u (newChunk v.s v.atts >>= fun c => allocParts ps >>= fun r => Pure.pure (c :: r)) o h _
+      have e : interp u true (newChunk v.s v.atts) o h = some (h.chunks.length, o, h.allocChunk v.s v.atts) := by
+        simp [newChunk, interp]
+      have hnew : Ok u (newChunk v.s v.atts) o h (Std u o h fun c _ h' => h'.chunkVal c = some v) :=
+        Std.of_run g e (fun _ m => m) (fun _ _ => by simp [Heap.chunkVal, Heap.allocChunk, ChunkObj.val])
+      refine Std.bind hnew ?_
+      intro c o' h' g' p' _ hc
+      have hclt : c < h'.chunks.length := by
+        simp only [Heap.chunkVal] at hc
+        cases hx : h'.chunks[c]? with
+        | none => simp [hx] at hc
+        | some x => exact (List.getElem?_eq_some_iff.mp hx).1
+      refine Std.bind (ih g' (fun c2 v2 hm => by
+        have := hps c2 v2 hm
+        rw [p'.chunkVal (partsTrue_live hps c2 v2 hm)]; exact this)) ?_
+      intro cs o'' h'' g'' p'' _ hcs
+      refine Std.pure g'' ⟨?_, ?_⟩
+      · intro x hm
+        rcases List.mem_cons.mp hm with e | m
+        · subst e; exact p''.chunk_lt hclt
+        · exact hcs.1 x m
+      · simp [Heap.valsOf, p''.chunkVal hclt, hc, hcs.2, Part.val]
+
+theorem mkFmt_val {u : UEnv} {o h} (g : Good u o h) {cs : List Nat} (hx : h.chunkIds cs) :
+    Ok u (mkFmt cs) o h (Std u o h fun r _ h' => r < h'.fmts.length ∧ h'.value r = h'.valsOf cs) := by
+  refine Std.of_run g (a := h.fmts.length) (o' := (h.lists.length :: o).filter (· ≠ h.lists.length))
+    (h' := (h.allocList cs).allocFmt h.lists.length) ?_ ?_ ?_
+  · simp [mkFmt, bind, Cmd.bind, newList, newFmt, interp, ck, hx, Heap.allocList, Heap.allocFmt]
+  · intro l hl
+    have := (g.owned l hl).1
+    simp [List.mem_filter, hl]; omega
+  · intro _ _
+    refine ⟨by simp [Heap.allocFmt, Heap.allocList], ?_⟩
+    simp [Heap.value, Heap.listVal, Heap.allocFmt, Heap.allocList]
+
+theorem build_val {u : UEnv} {o h} (g : Good u o h) {ps : List Part} (hp : partsTrue h ps) :
+    Ok u (build ps) o h (Std u o h fun r _ h' => r < h'.fmts.length ∧ h'.value r = some (ps.map Part.val)) := by
+  show Ok u (allocParts ps >>= fun cs => mkFmt cs) o h _
+  refine Std.bind (allocParts_val g hp) ?_
+  intro cs o' h' g' _ _ hcs
+  refine Std.mono (mkFmt_val g' hcs.1) ?_
+  intro r o'' h'' _ p'' hr
+  exact ⟨hr.1, by rw [hr.2, p''.valsOf hcs.1, hcs.2]⟩
+
+
+theorem contents_val {u : UEnv} {o h} (g : Good u o h) {r : Nat} (hr : r < h.fmts.length) :
+    Ok u (contents r) o h (Std u o h fun cs _ h' => h'.chunkIds cs ∧ h'.value r = h'.valsOf cs) := by
+  have hf := List.getElem?_eq_getElem hr
+  have hl := g.fmtList r _ hf
+  obtain ⟨cs, e, hc⟩ := contents_run (chk := true) g hr
+  have e2 : interp u true (contents r) o h = some (h.lists[h.fmts[r].chunks], o, h) := by
+    simp [contents, bind, Cmd.bind, getFmt, getList, interp, hf, List.getElem?_eq_getElem hl]
+  exact ⟨_, o, h, e2, g, Pres.refl h, fun _ m => m, g.listElems _ _ (List.getElem?_eq_getElem hl),
+    value_eq_valsOf hf (List.getElem?_eq_getElem hl)⟩
+
+theorem pairs_true {h : Heap} : ∀ (vs : List (Nat × Chunk)), some (vs.map Prod.snd) = h.valsOf (vs.map Prod.fst) →
+    ∀ p, p ∈ vs → h.chunkVal p.1 = some p.2 := by
+  intro vs
+  induction vs with
+  | nil => intro _ p hp; cases hp
+  | cons q vs ih =>
+    intro hv p hp
+    simp only [List.map_cons, Heap.valsOf] at hv
+    cases h1 : h.chunkVal q.1 with
+    | none => simp [h1] at hv
+    | some v =>
+      cases h2 : h.valsOf (vs.map Prod.fst) with
+      | none => simp [h1, h2] at hv
+      | some w =>
+        simp only [h1, h2, Option.some.injEq, List.cons.injEq] at hv
+        rcases List.mem_cons.mp hp with e | m
+        · subst e; rw [h1, hv.1]
+        · exact ih (by rw [h2, hv.2]) p m
+
+theorem chunkVals_val {u : UEnv} {o h} (g : Good u o h) {cs : List Nat} (hx : h.chunkIds cs) :
+    Ok u (chunkVals cs) o h (Std u o h fun vs _ h' => some (vs.map Prod.snd) = h'.valsOf cs ∧
+      ∀ p, p ∈ vs → h'.chunkVal p.1 = some p.2) := by
+  obtain ⟨vs, e, e2, e3⟩ := chunkVals_run (u := u) (chk := true) (o := o) hx
+  exact ⟨vs, o, h, e, g, Pres.refl h, fun _ m => m, e3, pairs_true vs (by rw [e2]; exact e3)⟩
+
+theorem fromVals_val {u : UEnv} {o h} (g : Good u o h) {r : Nat} (hr : r < h.fmts.length) {v : FmtStr}
+    (hv : h.value r = some v) (F : FmtStr → FmtStr) :
+    Ok u (contents r >>= fun cs => chunkVals cs >>= fun vs => build ((F (vs.map Prod.snd)).map Part.fresh)) o h
+      (Std u o h fun x _ h' => x < h'.fmts.length ∧ h'.value x = some (F v)) := by
+  refine Std.bind (contents_val g hr) ?_
+  intro cs o1 h1 g1 p1 _ hcs
+  refine Std.bind (chunkVals_val g1 hcs.1) ?_
+  intro vs o2 h2 g2 p2 _ hvs
+  have e : vs.map Prod.snd = v := by
+    have h2v : h2.value r = some v := by rw [(p1.trans p2).value g hr]; exact hv
+    have : h2.value r = h2.valsOf cs := by
+      rw [p2.value g1 (p1.fmt_lt hr), hcs.2, p2.valsOf hcs.1]
+    rw [this, ← hvs.1] at h2v
+    exact Option.some.inj h2v
+  refine Std.mono (build_val g2 (ps := (F (vs.map Prod.snd)).map Part.fresh) (fun c w hm => by simp at hm)) ?_
+  intro x o3 h3 _ _ hx
+  refine ⟨hx.1, ?_⟩
+  rw [hx.2, e]
+  simp [List.map_map, Function.comp_def, Part.val]
+
+theorem cwna_val {u : UEnv} {o h} (g : Good u o h) {r : Nat} (hr : r < h.fmts.length) {v : FmtStr}
+    (hv : h.value r = some v) (a : Atts) :
+    Ok u (cwna r a) o h (Std u o h fun x _ h' => x < h'.fmts.length ∧ h'.value x = some (copyWithNewAtts v a)) :=
+  fromVals_val g hr hv (copyWithNewAtts · a)
+
+theorem lit_val {u : UEnv} {o h} (g : Good u o h) (f : FmtStr) :
+    Ok u (lit f) o h (Std u o h fun x _ h' => x < h'.fmts.length ∧ h'.value x = some f) := by
+  refine Std.mono (build_val g (ps := f.map Part.fresh) (fun c w hm => by simp at hm)) ?_
+  intro x o3 h3 _ _ hx
+  refine ⟨hx.1, ?_⟩
+  rw [hx.2]
+  simp [List.map_map, Function.comp_def, Part.val]
+
+theorem fmtstrOfStr_val {u : UEnv} {o h} (g : Good u o h) (t : Text) (a : Atts) :
+    Ok u (fmtstrOfStr t a) o h (Std u o h fun x _ h' => x < h'.fmts.length ∧
+      h'.value x = some (copyWithNewAtts [⟨t, {}⟩] a)) := by
+  unfold fmtstrOfStr
+  refine Std.bind (lit_val g _) ?_
+  intro r o1 h1 g1 p1 _ hr
+  exact cwna_val g1 hr.1 hr.2 a
+
+theorem buildOrEmpty_val {u : UEnv} {o h} (g : Good u o h) {ps : List Part} (hp : partsTrue h ps) :
+    Ok u (buildOrEmpty ps) o h (Std u o h fun x _ h' => x < h'.fmts.length ∧
+      h'.value x = some (if (ps.map Part.val).isEmpty then emptyFmt else ps.map Part.val)) := by
+  unfold buildOrEmpty
+  cases ps with
+  | nil => exact Std.mono (fmtstrOfStr_val g [] {}) (fun x _ _ _ _ hx => ⟨hx.1, by rw [hx.2]; rfl⟩)
+  | cons p ps => exact Std.mono (build_val g hp) (fun x _ _ _ _ hx => ⟨hx.1, by rw [hx.2]; rfl⟩)
+
+theorem getitemParts_mem (start stop : Nat) (vs : List (Nat × Chunk)) :
+    ∀ counter c v, Part.shared c v ∈ getitemParts start stop counter vs → (c, v) ∈ vs := by
+  induction vs with
+  | nil => intro counter c v hm; simp [getitemParts] at hm
+  | cons p vs ih =>
+    intro counter c v hm
+    obtain ⟨id, ch⟩ := p
+    simp only [getitemParts] at hm
+    split at hm
+    · split at hm <;> (try split at hm) <;> simp at hm <;> grind
+    · split at hm <;> (try split at hm) <;> simp at hm <;> grind
+
+/-- `a[idx]` on the heap computes what the value-level `getitem` (the model of C06) computes on `a`'s
+    value: same error, or a FmtStr object whose value is the value-level result. -/
+theorem getitem_val {u : UEnv} {o h} (g : Good u o h) {a : Nat} (ha : a < h.fmts.length) {v : FmtStr}
+    (hv : h.value a = some v) (idx : Index) :
+    Ok u (Heap.getitem a idx) o h (Std u o h fun res _ h' =>
+      match Curtsies.getitem v idx with
+      | .error e => res = .error e
+      | .ok w => ∃ r, res = .ok r ∧ r < h'.fmts.length ∧ h'.value r = some w) := by
+  unfold Heap.getitem
+  refine Std.bind (obsLen_ok g ha) ?_
+  intro n o1 h1 g1 p1 _ hn
+  have ha1 := p1.fmt_lt ha
+  have hv1 : h1.value a = some v := by rw [p1.value g ha]; exact hv
+  have en : n = len v := by
+    simp only [Heap.freshLen, hv1, Option.map_some, Option.some.injEq] at hn
+    exact hn.symm
+  subst en
+  simp only [Curtsies.getitem, bind, Except.bind]
+  cases hns : normalizeSlice (len v) idx with
+  | error e => exact Std.pure g1 rfl
+  | ok se =>
+    obtain ⟨start, stop⟩ := se
+    simp only []
+    refine Std.bind (contents_val g1 ha1) ?_
+    intro cs o2 h2 g2 p2 _ hcs
+    refine Std.bind (chunkVals_val g2 hcs.1) ?_
+    intro vs o3 h3 g3 p3 _ hvs
+    have e : vs.map Prod.snd = v := by
+      have h3v : h3.value a = some v := by rw [(p2.trans p3).value g1 ha1]; exact hv1
+      have : h3.value a = h3.valsOf cs := by
+        rw [p3.value g2 (p2.fmt_lt ha1), hcs.2, p3.valsOf hcs.1]
+      rw [this, ← hvs.1] at h3v
+      exact Option.some.inj h3v
+    have hp : partsTrue h3 (getitemParts start stop 0 vs) := by
+      intro c w hm
+      exact hvs.2 (c, w) (getitemParts_mem start stop vs 0 c w hm)
+    refine Std.bind (buildOrEmpty_val g3 hp) ?_
+    intro r o4 h4 g4 p4 _ hr
+    refine Std.pure g4 ⟨r, rfl, hr.1, ?_⟩
+    rw [hr.2, getitemParts_val, e]
 end Curtsies.Heap
